@@ -32,6 +32,7 @@ type FakeRegistry struct {
 	// FailDelete: it also refuses to delete manifests (a client cannot remove the index it has just replaced).
 	NoReferrersAPI, FailDelete bool
 	srv       *httptest.Server
+	tr        *http.Transport
 }
 
 type fakeManifest struct {
@@ -46,8 +47,24 @@ func NewFakeRegistry(pageSize int) *FakeRegistry {
 	return f
 }
 
-func (f *FakeRegistry) Close()       { f.srv.Close() }
+// Close stops the server (and the private transport of Client()).
+func (f *FakeRegistry) Close() {
+	if f.tr != nil {
+		f.tr.CloseIdleConnections()
+	}
+	f.srv.Close()
+}
 func (f *FakeRegistry) Host() string { return strings.TrimPrefix(f.srv.URL, "http://") }
+
+// Client returns an HTTP client with a transport of its own. Clients of registries that live side by side must not share
+// http.DefaultTransport: httptest.Server.Close closes the idle connections of the default transport, which breaks a
+// request another goroutine is just about to send over one of them ("transport connection broken").
+func (f *FakeRegistry) Client() *http.Client {
+	if f.tr == nil {
+		f.tr = &http.Transport{}
+	}
+	return &http.Client{Transport: f.tr}
+}
 
 // Requests returns the log ("METHOD path") so far.
 func (f *FakeRegistry) Requests() []string {
